@@ -37,6 +37,9 @@ def env_base():
     e.update(GOFLAGS="-mod=mod", GOPROXY="off", GOSUMDB="off", GOTOOLCHAIN="local",
              GODEBUG="asyncpreemptoff=1")
     e.pop("GOMAXPROCS", None)
+    # a simulated run takes milliseconds of real time: 25 s without a single seam event is a stalled
+    # simulation (a goroutine blocked on a standard mutex stops the bubble's clock), not a slow one
+    e.setdefault("VERIF_WATCHDOG_S", "25")
     return e
 
 
@@ -479,6 +482,7 @@ def check_property(prop, tier, seed, workers, replay=None, budget_s=None, run_li
         # 2. seeded search
         plan = get_plan(binary, prop, tier)
         summaries, violations, crashes, hangs = run_batch(binary, prop, tier, seed, tmp, plan, known_regex, workers, budget_s, run_limit=run_limit)
+        nlock = 0
         for h in list(hangs):
             if info.get("hang_is_lockup") and h.get("cur"):
                 lsig, ldet = lockup_signature(prop, h["stderr"])
@@ -489,6 +493,12 @@ def check_property(prop, tier, seed, workers, replay=None, budget_s=None, run_li
                     hangs.remove(h)
                     if any(re.search(k, lsig) for k in known_regex):
                         log("KNOWN-FINDING (lock-up seen in search): property=%s %s" % (prop, lsig))
+                        continue
+                    nlock += 1
+                    if nlock > 1:
+                        # every replay of a stalled simulation costs a watchdog period: one minimised
+                        # replay file per check is enough, the others are only counted
+                        log("  (lock-up also in run %s: %s)" % (rp["scenario"].get("run"), lsig))
                         continue
                     viol_paths.append(finalize_violation(binary, prop, seed, rp, tmp, note="simulation stalled on a mutex"))
         if hangs:
